@@ -111,6 +111,7 @@ def corrupted(draw):
     for _ in range(n):
         kind = draw(hs.sampled_from(
             ['option-value', 'option-value', 'option-value', 'option-add',
+             'two-options', 'two-options',
              'option-add', 'byte-flip', 'byte-insert', 'byte-delete',
              'range-delete', 'line-delete', 'line-dup', 'cr-insert',
              'truncate', 'header-newline', 'container-attr',
@@ -139,6 +140,9 @@ def corrupted(draw):
             keys = draw(hs.lists(hs.sampled_from(
                 ['length', 'indent', 'encoding', 'line_endings', 'format']),
                 min_size=2, max_size=2, unique=True))
+
+            if b'preamble' in body[:colon] and draw(hs.booleans()):
+                keys = ['length', 'indent']
             nums = ['4294967295', '4294967296', '18446744073709551616',
                     '99999999999999999999', '2147483648', '0', '-1', '1']
             pairs = []
